@@ -40,7 +40,10 @@ MANIFEST = {
             "models (builder C11, cycle breaking = perfect model C09_breakCycles_correct, Clark C09, d-DNNF loader/evaluator "
             "C10) are composed downstream of the grounder (C01_pipeline_downstream: the evaluator's answer is the weight of the "
             "consistent valuations of the acyclic ground program in which the query holds, normalised by the evidence); "
-            "the tabled grounder itself is tied extensionally per generated program (not proved for all programs).",
+            "the tabled grounder itself is tied extensionally per generated program (not proved for all programs), except on "
+            "ground programs without recursion: there it is modelled (ProbLogModel/GroundAcyclic.lean, exact equality of the "
+            "ground program with the real engine's) and proved correct against Sem.wfm for all programs, schedules and call "
+            "histories (C01Ground.C01_ground_acyclic_correct).",
     "note": "Trusted: Lean kernel + standard axioms; the harness's first-order instantiation (spine.reference); Sem as the "
             "meaning of 'distribution semantics'. The engine (engine_stack.py/eval_nodes.py) is not modelled: agreement is "
             "established on the generated programs only. Floats vs exact rationals at 1e-9.",
@@ -187,6 +190,17 @@ def run(ctx):
     ctx.proof_phase("ProbLogProofs.Properties.C10Bridge", ["ProbLogProofs.C10.C01_pipeline_downstream", "ProbLogProofs.C10.C01_pipeline_downstream_atoms",
                                                             "ProbLogProofs.C10.C01_extractWeights_spec", "ProbLogProofs.C10.C10_evaluate_is_conditional_wmc"])
     ctx.proof_phase("ProbLogProofs.Properties.C09Unroll", ["ProbLogProofs.C09.C09_breakCycles_correct"])
+    # the grounder itself, on ground programs without recursion: model + exact correspondence + theorem
+    # C01_ground_acyclic_correct (upstream of C01_pipeline_downstream)
+    import ground_util
+    gerr = ground_util.guarded(ctx, "all", 200, 6000)
+    if ground_util.is_ground_replay(ctx):
+        return ground_util.after(ctx.finish("proof"), gerr)     # (the replay belongs to the phase above)
+    rc = _run_rest(ctx)
+    return ground_util.after(rc, gerr)
+
+
+def _run_rest(ctx):
     drv = ctx.driver("Drivers.Spine")
     if drv is None:
         return ctx.finish("proof")
